@@ -349,6 +349,14 @@ def rule_surplus(ctx: Ctx) -> None:
         weak = "used_parameters" not in conds
         ctx.tri("4-surplus", rn, rj[0]["node"], "used_parameters" in conds and ("-" in conds or "difference" in conds or "not in" in conds or "<=" in conds or "issubset" in conds), weak,
                 "the rejection compares the supplied keywords with the parameters that were used", f"the rejection `{conds[:80]}` does not look at the used parameters", f"condition `{conds[:60]}`", key="unused-cond")
+    # run() itself resolves no argument: the set of used parameters it hands down is filled only by the functions that resolve
+    # arguments (or mark a cache hit); an entry added in run() declares a keyword used that no function received
+    handed = [k.value.id for c in ast.walk(rn.node) if isinstance(c, ast.Call) and norm(c.func).endswith("._run") for k in c.keywords if isinstance(k.value, ast.Name) and "used" in (k.arg or "")]
+    if handed:
+        own = [c for c in ast.walk(rn.node) if isinstance(c, ast.Call) and isinstance(c.func, ast.Attribute) and c.func.attr in ("add", "update", "__ior__") and isinstance(c.func.value, ast.Name) and c.func.value.id == handed[0]] + \
+              [a for a in ast.walk(rn.node) if isinstance(a, ast.AugAssign) and isinstance(a.target, ast.Name) and a.target.id == handed[0]]
+        ctx.add("4-surplus", rn, own[0] if own else rn.node, not own, f"run() only reads `{handed[0]}`; it is filled where arguments are resolved" if not own else
+                f"`{norm(own[0])[:70]}` adds to `{handed[0]}` in run() itself: keywords that no function consumed are declared used, so surplus (mistyped or cut-off) keywords are no longer rejected", key="used-writers")
     gfa_fn = P.func(f"{BASE}.Pipeline._get_func_args")
     used = [c for c in ast.walk(gfa_fn.node) if isinstance(c, ast.Call) and isinstance(c.func, ast.Attribute) and c.func.attr in ("add", "update") and "used_parameters" in norm(c.func.value)]
     ctx.tri("4-surplus", gfa_fn, used[0] if used else gfa_fn.node, bool(used), not used, "every resolved parameter is recorded as used", "_get_func_args no longer records the parameters it consumed: every call with keywords is rejected as having surplus ones", key="records-used")
